@@ -783,6 +783,11 @@ pub fn run_c02(a: &Args, shared: &SharedReport) {
                         // the second property of each kind must be decided as exactly as the first
                         variants.push(vec![(Expectation::Always, 0xFF), (Expectation::Always, m1 as u8), (Expectation::Sometimes, 0), (Expectation::Sometimes, m2 as u8)]);
                     }
+                    if (m1 * 3 + m2) % 4 == 0 {
+                        // an eventually-property that is satisfied at once, listed after the others: its bookkeeping
+                        // (bit index = property index) must not leak into the always/sometimes verdicts
+                        variants.push(vec![(Expectation::Always, m1 as u8), (Expectation::Sometimes, m2 as u8), (Expectation::Eventually, 0xFF)]);
+                    }
                     if th && (m1 + m2) % 5 == 0 {
                         // a violated/held always, a sometimes, and a never-witnessed sometimes: the search must go on
                         variants.push(vec![(Expectation::Sometimes, m2 as u8), (Expectation::Always, m1 as u8), (Expectation::Sometimes, 0)]);
